@@ -3,6 +3,7 @@ package htlcswitch
 // switchsim: oracles, wind-down, worker entry point (property C08).
 
 import (
+	"sync/atomic"
 	"bytes"
 	"context"
 	"errors"
@@ -36,7 +37,17 @@ type zzRing struct {
 
 var zzLog = &zzRing{}
 
+// zzSawFwdShutdown: lnd logged that ForwardPackets gave up because the link
+// was shutting down (routeAsync -> ErrLinkShuttingDown) during this run. It is
+// part of the structural signature of the recorded finding
+// "cut-inside-write/committed-circuit-add-dropped": the same end state reached
+// WITHOUT that event is something else and must be reported.
+var zzSawFwdShutdown atomic.Bool
+
 func (w *zzRing) Write(p []byte) (int, error) {
+	if bytes.Contains(p, []byte("failed to forward packet")) && bytes.Contains(p, []byte("link shutting down")) {
+		zzSawFwdShutdown.Store(true)
+	}
 	w.mu.Lock()
 	w.lines = append(w.lines, strings.TrimRight(string(p), "\n"))
 	if len(w.lines) > 60 {
@@ -368,7 +379,7 @@ func (s *zzSim) finalChecks() {
 			// loaded from disk), so nobody forwards or fails it until the
 			// node restarts.
 			bsw := s.nodes[zzB].sw
-			if bsw != nil && bsw.circuits.NumPending() > bsw.circuits.NumOpen() {
+			if bsw != nil && bsw.circuits.NumPending() > bsw.circuits.NumOpen() && zzSawFwdShutdown.Load() {
 				known := false
 				func() {
 					defer func() {
